@@ -54,6 +54,17 @@ FamilyN(p) ==
             LET nm2 == [nm1 EXCEPT ![NSlots[j]] = n2] IN NamingOK(nm2) /\ p = NProg(nm2)
 \* the base program with only the package-level variable named (C03 / C04: the error and cleanup variables of the generated
 \* code next to live package-level variables of those names)
+\* two providers of the other package, the first one can fail: the error variable must not take the other package's name
+\* (the second call would then select from the error variable)
+NProgTwoB(nm) ==
+  LET key == "N2/" \o ConcatStr([i \in DOMAIN NSlots |-> IF nm[NSlots[i]] = NDefault(NSlots[i]) THEN "" ELSE NSlots[i] \o "=" \o nm[NSlots[i]] \o ";"])
+  IN [Prog(key, "R", <<Tok("T1"), Tok("T2"), Tok("T3"), Tok("T4"), TokIn("TB", "b"), TokIn("TB2", "b")>>,
+           <<FuncIn("PB", "b", <<>>, "TB", TRUE, TRUE), FuncIn("PB2", "b", <<"TB">>, "TB2", FALSE, TRUE), Func("P1", <<"TB2", "T3">>, "T1", TRUE, TRUE)>>, <<>>,
+           <<Inj("Inject", <<Par(nm["p0"], "T3")>>, "T1", TRUE, TRUE, <<ItL(1), ItL(2), ItL(3)>>)>>) EXCEPT !.fam = "R"]
+     @@ [naming |-> [s \in {"T1", "T2", "T3", "T4", "TB", "P1", "P2", "PB", "pkg:b", "alias:b"} |-> nm[s]],
+         extravars |-> IF nm["var"] = "" THEN <<>> ELSE <<nm["var"]>>]
+FamilyNTwoB(p) == \E v \in {"", "err", "err2", "cleanup"} : \E b \in {"b", "err", "err2", "err3", "cleanup", "cleanup2", "t2", "tB"} :
+                    v # b /\ p = NProgTwoB([Base EXCEPT !["var"] = v, !["pkg:b"] = b, !["alias:b"] = b])
 \* the base program with one slot renamed (e.g. the other package named like the injector's package, or like a generated local)
 FamilyNOne(p, slot, vs) == \E v \in vs : p = NProg([Base EXCEPT ![slot] = v])
 FamilyNVar(p, vs) == \E v \in vs : p = NProg([Base EXCEPT !["var"] = v])
